@@ -57,6 +57,7 @@ type scenario struct {
 	Match   bool    `json:"match"`
 	Conns   int     `json:"conns"` // connections, run one after the other unless Concurrent
 	Conc    bool    `json:"conc,omitempty"`
+	Barrier bool `json:"barrier,omitempty"` // concurrent connections: the origin answers only once every connection's request has arrived, so that all handlers start writing their shaped responses from the same instant
 	Reconf  string  `json:"reconf,omitempty"` // "", rejected-before, accepted-after-accept, accepted-in-flight
 	Reconf2 string  `json:"reconf_cfg,omitempty"`
 	Latency int64   `json:"latency,omitempty"`
@@ -242,7 +243,13 @@ func run(sc scenario) (body func(), check func(r *vrt.Result) []finding) {
 			return tsl
 		}
 		full := pattern(sc.R + sc.N)
+		arrived := 0
 		w.Respond = func(req *http.Request) (*http.Response, error) {
+			if sc.Barrier {
+				arrived++
+				vrt.Bump()
+				vrt.WaitUntil("all-requests-arrived", func() bool { return arrived >= sc.Conns })
+			}
 			res := &http.Response{StatusCode: 200, Proto: "HTTP/1.1", ProtoMajor: 1, ProtoMinor: 1, Header: http.Header{"Content-Type": {"application/octet-stream"}}, Request: req}
 			res.Body = io.NopCloser(&chunkReader{b: full[sc.R:], chunk: sc.Chunk})
 			res.ContentLength = int64(sc.N)
@@ -537,6 +544,25 @@ func run(sc scenario) (body func(), check func(r *vrt.Result) []finding) {
 				}
 			}
 		}
+		if sc.Conc && active != nil && len(active.Halts) == 1 && len(active.Closes) == 0 && len(active.Throttles) == 0 && active.MaxBW == 0 {
+			// aggregate count check for a counted halt: exactly min(count, conns) connections pause (nothing else delays)
+			hl := active.Halts[0]
+			if hl.Byte >= int64(sc.R) && hl.Byte < int64(sc.R+sc.N) {
+				want := int(hl.Count)
+				if hl.Count < 0 || want > len(obs) {
+					want = len(obs)
+				}
+				halted := 0
+				for _, o := range obs {
+					if o.end-o.start >= time.Duration(hl.Dur)*time.Millisecond {
+						halted++
+					}
+				}
+				if halted != want {
+					add("count_not_honoured:concurrent_halt", "%d of %d concurrent connections paused for the halt, its count is %d", halted, len(obs), hl.Count)
+				}
+			}
+		}
 		// (reconfiguration scenarios create new per-shape buckets half way: not connection resources, not judged here)
 		if bucketsAfterClose > bucketsAfterCfg && !strings.HasPrefix(sc.Reconf, "accepted") {
 			add("buckets_leaked_after_close", "%d bucket drain threads created for connections are still alive after the connections were closed", bucketsAfterClose-bucketsAfterCfg)
@@ -644,6 +670,13 @@ func scenarios(tier string) []scenario {
 	for _, cnt := range []int64{1, 2, -1} {
 		out = append(out, scenario{Name: "count-seq", Shapes: []shape{{Regex: matchURL, Closes: []closeAct{{Byte: 100, Count: cnt}}}}, N: 600, Match: true, Conns: 3})
 		out = append(out, scenario{Name: "count-conc", Shapes: []shape{{Regex: matchURL, Closes: []closeAct{{Byte: 100, Count: cnt}}}}, N: 600, Match: true, Conns: 2, Conc: true, Bound: 1})
+		// the same with all handlers released into their shaped writes at the same instant (check-then-act windows
+		// on the shared action count are then one preemption away)
+		out = append(out, scenario{Name: "count-conc-barrier", Shapes: []shape{{Regex: matchURL, Closes: []closeAct{{Byte: 100, Count: cnt}}}}, N: 600, Match: true, Conns: 2, Conc: true, Barrier: true, Bound: 2})
+		if cnt > 0 {
+			out = append(out, scenario{Name: "count-conc-barrier", Shapes: []shape{{Regex: matchURL, Closes: []closeAct{{Byte: 100, Count: cnt}}}}, N: 600, Match: true, Conns: 3, Conc: true, Barrier: true, Bound: 1})
+			out = append(out, scenario{Name: "haltcount-conc-barrier", Shapes: []shape{{Regex: matchURL, Halts: []halt{{Byte: 100, Dur: 4000, Count: cnt}}}}, N: 600, Match: true, Conns: 2, Conc: true, Barrier: true, Bound: 2})
+		}
 	}
 	// reconfiguration timing
 	newCfg := configJSON([]shape{{Regex: matchURL, Closes: []closeAct{{Byte: 50, Count: -1}}}}, 0)
